@@ -273,7 +273,10 @@ def run(ck):
                        "second before the deadline are judged by the model comparison only (the property grants the timer one second "
                        "of granularity)")
     c05.regenerate_consts(ck)
+    t_build = time.time()
     broken = ck.coq_props()
+    ck.log(f"Coq: constants regenerated, Props closure built and checked in {time.time() - t_build:.1f}s "
+           "(a long time here = the 5-file proof chain was rebuilt after a model change, or the build lock was held by another check)")
     ok, out = vlib.coq_make(["Model/WsConnRun.vo"])
     if not ok:
         raise RuntimeError("WsConnRun build failed: " + out[-1500:])
